@@ -92,6 +92,8 @@ class Tr:
                 raise Unsupported('slice ' + self.src(n))
             if isinstance(n, ast.Call) and isinstance(n.func, ast.Name) and n.func.id == 'list' and len(n.args) == 1:
                 return self.e(n.args[0])          # list(tuple): a copy of the sequence
+            if isinstance(n, ast.Call) and isinstance(n.func, ast.Name) and n.func.id == 'deepcopy' and len(n.args) == 1:
+                return self.e(n.args[0])          # values are immutable in the model: a copy is the value
             if isinstance(n, ast.Call) and isinstance(n.func, ast.Name) and n.func.id == 'int' and len(n.args) == 1:
                 return self.e(n.args[0])          # int() of a floor division of naturals
             if isinstance(n, ast.Call) and isinstance(n.func, ast.Name) and n.func.id == 'all' and len(n.args) == 1 \
@@ -105,13 +107,32 @@ class Tr:
                 key = (n.elts[0].value, n.elts[1].value)
                 if key in CLS:
                     return 'Cls.' + CLS[key]
+            if len(n.elts) == 2 and isinstance(n.elts[0], ast.Name) and n.elts[0].id in getattr(self, 'base_vars', ()) \
+                    and isinstance(n.elts[1], ast.Constant) and n.elts[1].value in ('samples', 'slices'):
+                # (sample_base, 'samples'): a classification built from a base name
+                return '(Cls.ofBaseSub %s %s)' % (n.elts[0].id, json.dumps(n.elts[1].value))
+            if n.elts and all(isinstance(x, ast.Tuple) for x in n.elts):
+                return '[%s]' % ', '.join(self.e(x) for x in n.elts)     # a tuple of classifications
+            if n.elts and all(isinstance(x, ast.Constant) and isinstance(x.value, str) for x in n.elts):
+                return '[%s]' % ', '.join(json.dumps(x.value) for x in n.elts)
             raise Unsupported('tuple ' + self.src(n))
+        if isinstance(n, ast.ListComp) and len(n.generators) == 1 and not n.generators[0].ifs \
+                and isinstance(n.generators[0].target, ast.Name) and n.generators[0].target.id == '_' \
+                and isinstance(n.generators[0].iter, ast.Call) and isinstance(n.generators[0].iter.func, ast.Name) \
+                and n.generators[0].iter.func.id == 'range' and len(n.generators[0].iter.args) == 1:
+            # [v for _ in range(k)]
+            return '(List.replicate %s %s)' % (self.atom(n.generators[0].iter.args[0]), self.atom(n.elt))
+        if isinstance(n, ast.List) and len(n.elts) == 0:
+            return '[]'
         if isinstance(n, ast.Subscript):
             base = self.e(n.value)
             sl = n.slice
             if isinstance(sl, ast.Slice):
                 if sl.step is not None:
-                    raise Unsupported('slice step')
+                    if sl.upper is not None:
+                        raise Unsupported('slice step with an upper bound')
+                    lo = '0' if sl.lower is None else self.atom(sl.lower)
+                    return '(pyStep %s %s %s)' % (self.atom(n.value), lo, self.atom(sl.step))
                 lo, hi = sl.lower, sl.upper
                 if lo is None and hi is not None and isinstance(hi, ast.UnaryOp) and isinstance(hi.op, ast.USub) \
                         and isinstance(hi.operand, ast.Constant) and hi.operand.value == 1:
@@ -125,6 +146,8 @@ class Tr:
                 if lo is not None and hi is not None:
                     return '((%s).drop %s).take (%s - %s)' % (base, self.atom(lo), self.atom(hi), self.atom(lo))
                 raise Unsupported('slice ' + self.src(n))
+            if isinstance(n.value, ast.Name) and n.value.id in self.cls_vars and isinstance(sl, ast.Constant) and sl.value in (0, 1):
+                return '%s.%s' % (n.value.id, 'base' if sl.value == 0 else 'sub')
             if isinstance(n.value, ast.Name) and n.value.id in self.generic:
                 return '(%s)[%s]?' % (base, self.e(sl))
             if isinstance(sl, ast.UnaryOp) and isinstance(sl.op, ast.USub) and isinstance(sl.operand, ast.Constant) \
@@ -135,6 +158,8 @@ class Tr:
             return '(List.replicate %s %s)' % (self.atom(n.right), self.atom(n.left.elts[0]))
         if isinstance(n, ast.BinOp) and isinstance(n.op, ast.Add) and (self.is_list(n.left) or self.is_list(n.right)):
             return '(%s ++ %s)' % (self.e(n.left), self.e(n.right))
+        if isinstance(n, ast.BinOp) and isinstance(n.op, ast.FloorDiv) and getattr(self, 'div_guard', False):
+            return self.floor_div(n)
         if isinstance(n, ast.BinOp):
             ops = {ast.Add: '+', ast.Mult: '*', ast.FloorDiv: '/', ast.Mod: '%', ast.Sub: '-'}
             if type(n.op) not in ops:
@@ -152,7 +177,11 @@ class Tr:
             return True
         if isinstance(n, ast.BinOp) and isinstance(n.op, ast.Add):
             return self.is_list(n.left) or self.is_list(n.right)
-        return self.src(n) in self.list_exprs
+        if isinstance(n, ast.Call) and isinstance(n.func, ast.Name) and n.func.id == 'deepcopy' and len(n.args) == 1:
+            return self.is_list(n.args[0])
+        if isinstance(n, ast.ListComp) or isinstance(n, ast.List):
+            return True
+        return self.src(n) in self.list_exprs or (isinstance(n, ast.Name) and n.id in getattr(self, 'list_vars', ()))
 
     def atom(self, n):
         s = self.e(n)
@@ -218,7 +247,7 @@ class Tr:
                         if isinstance(t, ast.Subscript) and isinstance(t.value, ast.Name):
                             count[t.value.id] = count.get(t.value.id, 0) + 2
                 if isinstance(s, ast.Expr) and isinstance(s.value, ast.Call) and isinstance(s.value.func, ast.Attribute) \
-                        and s.value.func.attr == 'append' and isinstance(s.value.func.value, ast.Name):
+                        and s.value.func.attr in ('append', 'extend') and isinstance(s.value.func.value, ast.Name):
                     count[s.value.func.value.id] = count.get(s.value.func.value.id, 0) + 2
                 for f in ('body', 'orelse'):
                     if hasattr(s, f):
@@ -256,7 +285,62 @@ class Tr:
     def is_declared(self, x):
         return any(x in d for d in self.declared)
 
+    def assigned_names(self, stmts):
+        """names definitely assigned by the statement list (plain assignments at its top level, and names assigned
+        in every branch of a complete if / elif / else)"""
+        out = set()
+        for s in stmts:
+            if isinstance(s, ast.Assign) and len(s.targets) == 1 and isinstance(s.targets[0], ast.Name):
+                out.add(s.targets[0].id)
+            elif isinstance(s, ast.If) and s.orelse:
+                out |= self.assigned_names(s.body) & self.assigned_names(s.orelse)
+            elif self.find_idiom(s):
+                out.add(s.body[0].body[0].targets[0].id)      # unbound (an error) when nothing matches
+        return out
+
+    @staticmethod
+    def find_idiom(s):
+        return (isinstance(s, ast.For) and not s.orelse and isinstance(s.target, ast.Name) and len(s.body) == 1
+                and isinstance(s.body[0], ast.If) and not s.body[0].orelse and len(s.body[0].body) == 2
+                and isinstance(s.body[0].body[1], ast.Break) and isinstance(s.body[0].body[0], ast.Assign)
+                and len(s.body[0].body[0].targets) == 1 and isinstance(s.body[0].body[0].targets[0], ast.Name)
+                and isinstance(s.body[0].body[0].value, ast.Name) and s.body[0].body[0].value.id == s.target.id)
+
+    def maybe_assigned(self, stmts):
+        out = set()
+        for s in stmts:
+            if isinstance(s, ast.Assign) and len(s.targets) == 1 and isinstance(s.targets[0], ast.Name):
+                out.add(s.targets[0].id)
+            for f in ('body', 'orelse'):
+                if hasattr(s, f):
+                    out |= self.maybe_assigned(getattr(s, f))
+        return out
+
+    def floor_div(self, n):
+        return '(← pyFloorDiv %s %s)' % (self.atom(n.left), self.atom(n.right))
+
+    def hoisted(self, s, ind):
+        """`let mut x := <default>` for the names of `self.hoist` first assigned inside the branches of `s`; the
+        default is never read: every branch must assign the name (checked), as Python needs for the later uses"""
+        out = []
+        hoist = getattr(self, 'hoist', {})
+        if not hoist or not isinstance(s, ast.If):
+            return out
+        some = self.maybe_assigned(s.body) | self.maybe_assigned(s.orelse)
+        for x in sorted(some):
+            if x in hoist and not self.is_declared(x):
+                if not s.orelse or x not in (self.assigned_names(s.body) & self.assigned_names(s.orelse)):
+                    raise Unsupported('name %s is not assigned on every path' % x)
+                out.append('%slet mut %s := %s' % (ind, x, hoist[x]))
+                self.declared[-1].add(x)
+                self.hoisted_names = getattr(self, 'hoisted_names', set()) | {x}
+        return out
+
     def stmt(self, s, ind):
+        pre = self.hoisted(s, ind)
+        return pre + self.stmt0(s, ind)
+
+    def stmt0(self, s, ind):
         if isinstance(s, ast.Expr) and isinstance(s.value, ast.Constant) and isinstance(s.value.value, str):
             return []                           # docstring
         for head, lines in getattr(self, 'stmt_map', {}).items():
@@ -292,6 +376,8 @@ class Tr:
             x = s.target.id
             if not self.is_declared(x):
                 raise Unsupported('augmented assignment to an undeclared name')
+            if isinstance(s.op, ast.Add) and (self.is_list(s.value) or x in getattr(self, 'list_vars', ())):
+                return ['%s%s := %s ++ %s' % (ind, x, x, self.atom(s.value))]
             return ['%s%s := %s %s %s' % (ind, x, x, ops[type(s.op)], self.atom(s.value))]
         if isinstance(s, ast.Return):
             if s.value is None:
@@ -338,6 +424,11 @@ class Tr:
                 and self.is_declared(s.value.func.value.id) and len(s.value.args) == 1:
             x = s.value.func.value.id
             return ['%s%s := %s ++ [%s]' % (ind, x, x, self.e(s.value.args[0]))]
+        if isinstance(s, ast.Expr) and isinstance(s.value, ast.Call) and isinstance(s.value.func, ast.Attribute) \
+                and s.value.func.attr == 'extend' and isinstance(s.value.func.value, ast.Name) \
+                and self.is_declared(s.value.func.value.id) and len(s.value.args) == 1:
+            x = s.value.func.value.id
+            return ['%s%s := %s ++ %s' % (ind, x, x, self.atom(s.value.args[0]))]
         if isinstance(s, ast.If) and not s.orelse and isinstance(s.test, ast.Compare) and len(s.test.ops) == 1 \
                 and isinstance(s.test.ops[0], ast.IsNot) and isinstance(s.test.left, ast.Name) \
                 and s.test.left.id in self.opt_locals and isinstance(s.test.comparators[0], ast.Constant) \
@@ -362,6 +453,21 @@ class Tr:
                 out.append('%selse' % ind)
                 out += self.block(rest, ind + '  ')
             return out
+        if self.find_idiom(s):
+            # idiom: for x in L: if c(x): v = x; break   (v read afterwards: unbound when nothing matches)
+            v = s.body[0].body[0].targets[0].id
+            x = s.target.id
+            self.declared.append({x})
+            cond = self.b(s.body[0].test)
+            self.declared.pop()
+            if any('←' in part for part in [cond]):
+                raise Unsupported('monadic call inside a search loop condition')
+            if self.is_declared(v):
+                return ['%smatch (%s).find? (fun %s => %s) with' % (ind, self.e(s.iter), x, cond),
+                        '%s| some v_ => %s := v_' % (ind, v),
+                        '%s| none => %s' % (ind, 'throw PyErr.unboundLocal' if v in getattr(self, 'hoisted_names', ()) else 'pure ()')]
+            self.declared[-1].add(v)
+            return ['%slet some %s := (%s).find? (fun %s => %s) | throw PyErr.unboundLocal' % (ind, v, self.e(s.iter), x, cond)]
         if isinstance(s, ast.For):
             if s.orelse:
                 raise Unsupported('for-else')
@@ -452,7 +558,7 @@ inductive PyErr
   | assertionError
   | invalidStack
   | invalidExtension
-  | fuelExhausted        -- a translated `while` loop ran longer than the bound the translator gave it
+  | fuelExhausted | unboundLocal | zeroDivision        -- a translated `while` loop ran longer than the bound the translator gave it
 deriving DecidableEq, Repr
 
 /-- a classification as the pair of strings the Python code unpacks it into -/
@@ -465,6 +571,22 @@ def Cls.sub : Cls → String
   | gconst => "const"
   | gslices | tslices | vslices => "slices"
   | tsamples | vsamples => "samples"
+
+/-- `(base, sub)` as a classification, for a base name held in a variable -/
+def Cls.ofBaseSub (base sub : String) : Cls :=
+  if sub == "samples" then (if base == "time" then .tsamples else .vsamples)
+  else (if base == "time" then .tslices else if base == "vector" then .vslices else .gslices)
+
+/-- `values[start::step]` for `step ≥ 1` (Python raises `ValueError` for a zero step; callers guard) -/
+def pyStepAux {α : Type} (step : Nat) : Nat → List α → List α
+  | _, [] => []
+  | 0, a :: l => a :: pyStepAux step (step - 1) l
+  | k + 1, _ :: l => pyStepAux step k l
+
+def pyStep {α : Type} (values : List α) (start step : Nat) : List α := pyStepAux step 0 (values.drop start)
+
+/-- `a // b` of naturals: `ZeroDivisionError` for a zero divisor -/
+def pyFloorDiv (a b : Nat) : Except PyErr Nat := if b == 0 then .error PyErr.zeroDivision else .ok (a / b)
 
 /-- `values[i]` for a non-negative index -/
 def pyIndex {α : Type} (values : List α) (i : Nat) : Except PyErr α :=
@@ -483,6 +605,8 @@ GROUP_OF = {
     'split_specs': 'wrapsplit', 'split_trim': 'wrapsplit',
     'wrap_merge_shape': 'wrapmerge', 'fill_specs': 'wrapmerge',
     'get_shape_counts': 'stack', 'chk_order_check': 'stack',
+    'global_slice_subset': 'values', 'insert_slice_interleave': 'values', 'insert_sample_interleave': 'values',
+    'copy_slice_dest': 'values', 'copy_slice_vals': 'values', 'get_changed_class': 'values',
     'get_data_trim': 'data', 'file_idx_volume': 'data', 'file_idx_slice': 'data', 'get_data': 'data',
 }
 GROUP_IMPORTS = {
@@ -495,6 +619,7 @@ GROUP_IMPORTS = {
     'wrapmerge': ['DcmVerif.Generated.PyPrelude', 'DcmVerif.Model.Wrap'],
     'stack': ['DcmVerif.Generated.PyPrelude'],
     'data': ['DcmVerif.Generated.PyPrelude', 'DcmVerif.Model.Wrap'],
+    'values': ['DcmVerif.Generated.Code_classes'],
 }
 GEN_DIR = os.environ.get('GEN_CODE_DIR', os.path.normpath(os.path.join(HERE, '..', 'lean', 'DcmVerif', 'Generated')))
 
@@ -661,6 +786,119 @@ def translate():
              [ds_init, ds_loop, ds_set, ast.parse('return data_slices').body[0]], tr,
              'the index expression input `input_idx` is written through in `NiftiWrapper.from_sequence` (dcmmeta.py): 0 on '
              'every axis of length one of the result, the input number on the merge axis, `slice(None)` elsewhere')
+    # ---- value-list arithmetic of get_subset / from_sequence (group `values`)
+    def find_stmt(body, pred):
+        for node in body:
+            for sub in ast.walk(node):
+                if isinstance(sub, ast.stmt) and pred(sub):
+                    return sub
+        return None
+
+    def stmts_between(body, first_pred, last_pred):
+        """consecutive statements of one statement list, from the first matching `first_pred` to the one matching `last_pred`"""
+        for node in [None] + [x for b in body for x in ast.walk(b)]:
+            lst_candidates = [body] if node is None else [getattr(node, f) for f in ('body', 'orelse') if isinstance(getattr(node, f, None), list)]
+            for lst in lst_candidates:
+                for i, st in enumerate(lst):
+                    if isinstance(st, ast.stmt) and first_pred(st):
+                        for j in range(i, len(lst)):
+                            if last_pred(lst[j]):
+                                return lst[i:j + 1]
+        return None
+
+    def is_assign_to(name):
+        return lambda st: isinstance(st, ast.Assign) and len(st.targets) == 1 and ast.unparse(st.targets[0]) == name
+
+    # _global_slice_subset: the whole function over the value list of the key
+    f = find_func(dm, 'DcmMetaExtension', '_global_slice_subset')
+    if f is None:
+        missing.append('global_slice_subset: not found')
+    else:
+        tr = Tr({'self.n_slices': 'self_n_slices', 'self.shape': 'self_shape', 'src_dict[key]': 'vals'},
+                {'self.get_valid_classes()': 'get_valid_classes self_shape'})
+        tr.skip_assign = {'src_dict'}
+        tr.list_vars = {'result', 'vals'}
+        emit('global_slice_subset', '{α : Type} (self_shape : List Nat) (self_n_slices : Nat) (vals : List α) (sample_base : String) (idx : Nat) : Except PyErr (List α)',
+             f.body, tr,
+             '`DcmMetaExtension._global_slice_subset` (dcmmeta.py), translated statement by statement; `src_dict[key]` (the '
+             'values of the key under global slices) is the parameter `vals`, `self.n_slices` a number (the caller has a slice dimension)')
+    # _insert_slice: the interleaving block
+    f = find_func(dm, 'DcmMetaExtension', '_insert_slice')
+    blk = None
+    if f is not None:
+        blk = stmts_between(f.body, is_assign_to('n_slices'), lambda st: isinstance(st, ast.For) and 'intlv' in ast.unparse(st))
+    if blk is None:
+        missing.append('insert_slice_interleave: statements n_slices = … for vol_idx in range(n_vols) … not found')
+    else:
+        tr = Tr({'self.n_slices': 'self_n_slices', 'other.n_slices': 'other_n_slices_', 'self.shape': 'self_shape'}, {})
+        tr.list_vars = {'intlv', 'local_vals', 'other_vals'}
+        emit('insert_slice_interleave', '{α : Type} (self_shape : List Nat) (self_n_slices other_n_slices_ : Nat) (local_vals other_vals : List α) : Except PyErr (List α)',
+             blk + [ast.parse('return intlv').body[0]], tr,
+             'the interleaving block of `DcmMetaExtension._insert_slice` (dcmmeta.py): per volume, the slices held so far followed by the new ones')
+    # _insert_sample: the interleaving block (time merge of 5-D extensions)
+    f = find_func(dm, 'DcmMetaExtension', '_insert_sample')
+    blk = None
+    if f is not None:
+        blk = stmts_between(f.body, is_assign_to('n_slices'), lambda st: isinstance(st, ast.For) and 'intlv' in ast.unparse(st))
+    if blk is None:
+        missing.append('insert_sample_interleave: statements n_slices = … for vec_idx in range(shape[4]) … not found')
+    else:
+        tr = Tr({'self.n_slices': 'self_n_slices', 'other.shape[3]': 'other_shape_3', 'self.shape': 'self_shape'}, {})
+        tr.list_vars = {'intlv', 'local_vals', 'other_vals'}
+        emit('insert_sample_interleave', '{α : Type} (self_shape : List Nat) (self_n_slices other_shape_3 : Nat) (local_vals other_vals : List α) : Except PyErr (List α)',
+             [ast.parse('shape = self.shape').body[0]] + blk + [ast.parse('return intlv').body[0]], tr,
+             'the interleaving block of `DcmMetaExtension._insert_sample` (dcmmeta.py): per vector component, the time points held so far followed by the new ones')
+    # _copy_slice: destination class and the values stored for one key
+    f = find_func(dm, 'DcmMetaExtension', '_copy_slice')
+    if f is None or not isinstance(f.body[1] if len(f.body) > 1 else None, ast.If):
+        missing.append('copy_slice_dest: not found')
+        missing.append('copy_slice_vals: not found')
+    else:
+        tr = Tr({}, {}, cls_vars=['src_class'])
+        tr.attrs['self.get_valid_classes()'] = 'valid'
+        tr.hoist = {'dest_class': 'Cls.gconst'}
+        emit('copy_slice_dest', '(valid : List Cls) (src_class : Cls) : Except PyErr Cls',
+             [f.body[1], ast.parse('return dest_class').body[0]], tr,
+             'the destination class chosen by `DcmMetaExtension._copy_slice` (dcmmeta.py); `self.get_valid_classes()` (of the result) is the parameter `valid`')
+        loop = [st for st in f.body if isinstance(st, ast.For) and 'subset_vals' in ast.unparse(st)]
+        if not loop:
+            missing.append('copy_slice_vals: loop not found')
+        else:
+            body = [st for st in loop[0].body if not (isinstance(st, ast.Assign) and ast.unparse(st.targets[0]).startswith('dest_dict['))
+                    and not (isinstance(st, ast.Expr) and '_simplify' in ast.unparse(st))]
+            tr = Tr({}, {})
+            tr.list_vars = {'subset_vals', 'full_vals', 'vals'}
+            # a constant is a one-element list in the model: `subset_vals = subset_vals[0]` keeps the list
+            tr.stmt_map = {'if len(subset_vals) == 1:': []}
+            tr.div_guard = True
+            emit('copy_slice_vals', '{α : Type} (vals : List α) (idx stride dest_mult : Nat) : Except PyErr (List α)',
+                 body + [ast.parse('return subset_vals').body[0]], tr,
+                 'the values `DcmMetaExtension._copy_slice` stores for one key (dcmmeta.py, body of its loop): every `stride`-th value from '
+                 '`idx`, repeated up to the multiplicity of the destination; a single value is kept as a one-element list')
+    # _get_changed_class
+    f = find_func(dm, 'DcmMetaExtension', '_get_changed_class')
+    if f is None:
+        missing.append('get_changed_class: not found')
+    else:
+        tr = Tr({'self.shape': 'self_shape', 'self._preserving_changes[curr_class]': '(preserving curr_class)',
+                 'curr_class == new_class': '(curr_class == some new_class)'},
+                {'self.get_valid_classes()': 'get_valid_classes self_shape',
+                 'self.get_multiplicity(curr_class)': 'get_multiplicity self_shape self_n_slices curr_class',
+                 'self.get_multiplicity(new_class)': 'get_multiplicity self_shape self_n_slices new_class'},
+                cls_vars=['curr_class', 'new_class'])
+        tr.opt_params = {'curr_class'}
+        tr.list_vars = {'result', 'values'}
+        tr.hoist = {'curr_mult': '0', 'per_slice': 'false', 'new_mult': '0', 'result': '[]'}
+        tr.div_guard = True
+        # representation: the values of a key are a list; a constant (or an absent key, read as None) is a one-element list
+        tr.stmt_map = {'values, curr_class = self.get_values_and_class(key)': [],
+                       "if curr_class is None or curr_class == ('global', 'const'):": [],
+                       "if new_class == ('global', 'const'):": ["if (new_class == Cls.gconst) then", "  result := (result.head?).toList"]}
+        emit('get_changed_class', '{α : Type} (self_shape : List Nat) (self_n_slices : Option Nat) (values : List α) (curr_class : Option Cls) (new_class : Cls) (slice_dim : Nat) : Except PyErr (List α)',
+             f.body, tr,
+             '`DcmMetaExtension._get_changed_class` (dcmmeta.py), translated statement by statement over the value list of the key: '
+             '`get_values_and_class(key)` is the parameters `values` / `curr_class`; a constant (and the `None` of an absent key) is a '
+             'one-element list, so `values = [values]` is the identity and `result[0]` keeps the list')
     # ---- check_valid
     f = find_func(dm, 'DcmMetaExtension', 'check_valid')
     if f is None:
